@@ -21,6 +21,7 @@ CLAUSE = CLAUSE + (" (RF-TAB) a stored page is copied with the size cache_page_s
 CLAUSE = CLAUSE + (" (RF-WIDTH) the statistics fields that take a page's subpage number can hold every subcode the decoder stores "
                    "(mask 0x3F7F).")
 CLAUSE = CLAUSE + (" The updates of subno_min and subno_max in cache_network_add_page do not depend on each other's test.")
+CLAUSE = CLAUSE + (" (RF-CORR) a function that can see zombie pages takes a page size off memory_used only on the not-a-zombie edge; cache_network_remove_page is given the page's own network.")
 NOT_DECIDED = ("map semantics (lookup returns the most recent version), memory-limit arithmetic, exactness of the per-network "
                "statistics, distinctness of death_row entries across the two eviction passes.")
 
